@@ -513,4 +513,43 @@ def r8_stored_as_written(ctx):
     ctx.floor(n, 15)
 
 
-RULES = [r8_stored_as_written, r7_range_expressions, r6_settings_survive_derived_copies, r1_exactly_one, r2_ctor_setter_parity, r3_documented_ranges, r5_builders_not_crosswired]
+def r9_derived_settings_are_current(ctx):
+    """"Every setting equals the value written / assigned": a setting derived from others on read (APD node capacitance, charge-to-volt conversion, ...) is either recomputed on every read, or - when its getter memoises it (`if self._x is None: self._x = f(...)`) - reset by EVERY setter that stores a field the derivation reads (directly or through other getters); otherwise a swept / assigned value leaves the derived setting at its old value."""
+    from sa.astutil import enclosing_tests, stores
+
+    n = 0
+    for cq in CLASSES:
+        ci = ctx.cls(cq)
+
+        def fields_read(fn, seen=None):
+            seen = seen if seen is not None else set()
+            out = set()
+            for a in ast.walk(fn.node):
+                if isinstance(a, ast.Attribute) and isinstance(a.value, ast.Name) and a.value.id == "self" and isinstance(a.ctx, ast.Load):
+                    if a.attr.startswith("_"):
+                        out.add(a.attr)
+                    elif a.attr in ci.getters and a.attr not in seen:
+                        seen.add(a.attr)
+                        out |= fields_read(ci.getters[a.attr], seen)
+            return out
+
+        for name, g in sorted(ci.getters.items()):
+            for st, t in stores(g.node, lambda t: isinstance(t, ast.Attribute) and isinstance(t.value, ast.Name) and t.value.id == "self"):
+                fld = t.attr
+                memo = [(norm(tt), pol) for tt, pol in enclosing_tests(st) if f"self.{fld}" in norm(tt)]
+                n += 1
+                if not memo:
+                    ctx.ok(f"{cq}.{name}#derived", f"self.{fld} is recomputed on every read", where=g, node=st)
+                    continue
+                deps = fields_read(g) - {fld}
+                stale = []
+                for sname, sfn in sorted(ci.setters.items()):
+                    stored = {tt.attr for _, tt in stores(sfn.node, lambda tt: isinstance(tt, ast.Attribute) and isinstance(tt.value, ast.Name) and tt.value.id == "self")}
+                    if stored & deps and fld not in stored:
+                        stale.append((sname, sorted(stored & deps)))
+                ok = not stale
+                ctx.check(ok, f"{cq}.{name}#derived", f"memoised self.{fld} is reset by every setter of what it derives from" if ok else f"`{name}` is memoised in self.{fld} (recomputed only when {memo}), but the setter of `{stale[0][0]}` changes {stale[0][1]} without resetting it: after assigning / sweeping {stale[0][0]} the derived setting keeps its old value", where=g, node=st)
+    ctx.floor(n, 2)
+
+
+RULES = [r9_derived_settings_are_current, r8_stored_as_written, r7_range_expressions, r6_settings_survive_derived_copies, r1_exactly_one, r2_ctor_setter_parity, r3_documented_ranges, r5_builders_not_crosswired]
